@@ -45,6 +45,7 @@ MCDB = """CONSTANTS
   Acks = %(Acks)d
   AllowDiscard = %(AllowDiscard)s
   WithReroute = %(WithReroute)s
+  Rejoin = %(Rejoin)s
   ReportInMem = %(ReportInMem)s
   SkipPrecommitCheck = %(SkipPrecommitCheck)s
   SkipReplicaAlhCheck = FALSE
@@ -62,7 +63,7 @@ T, F = "TRUE", "FALSE"
 
 
 def mcdb_cfg(**kw):
-    d = dict(MaxTx=2, MaxFail=1, MaxRestart=0, SyncRepl=T, Acks=1, AllowDiscard=T, WithReroute=T, ReportInMem=F, SkipPrecommitCheck=F,
+    d = dict(MaxTx=2, MaxFail=1, MaxRestart=0, SyncRepl=T, Acks=1, AllowDiscard=T, WithReroute=T, Rejoin=T, ReportInMem=F, SkipPrecommitCheck=F,
              DiscardKeepsAllowance=F, RecordSched=F, EmitDepth=0, inv="NoBad MCTypeOK", view="VIEW View\nSYMMETRY Sym")
     d.update(kw)
     return MCDB % d
@@ -113,12 +114,14 @@ def db_phase(chk, wd, out, binp):
     with cf.ThreadPoolExecutor(3) as ex:
         # the design: no guard of ReplicationDB.tla is ever false, whatever the schedule (2 replicas + primary switch, re-pointing by
         # reconfiguration and by re-routing, replica restart, rejoin of the lost primary)
-        n3 = 3 if thorough else 2
-        jobs["design sync acks=1"] = ex.submit(mc, "design: sync, 1 ack, %d txs, primary switch" % n3, MaxTx=n3, MaxRestart=0 if thorough else 1, extra=["-coverage", "1"] if not thorough else [])
-        jobs["design sync acks=2"] = ex.submit(mc, "design: sync, 2 acks, 2 txs, primary switch", Acks=2)
-        jobs["design async"] = ex.submit(mc, "design: async, 2 txs, primary switch", SyncRepl=F, MaxRestart=1)
+        jobs["design sync acks=1"] = ex.submit(mc, "design: sync, 1 ack, 2 txs, primary switch (reconfigure / re-route / rejoin)", workers=4)
+        jobs["design async"] = ex.submit(mc, "design: async, 2 txs, primary switch", SyncRepl=F, WithReroute=F)
+        jobs["coverage"] = ex.submit(mc, "design: sync, 1 ack, 1 tx, switch + restart (action coverage)", MaxTx=1, MaxRestart=1, extra=["-coverage", "1"])
         if thorough:
-            jobs["design sync acks=1 restart"] = ex.submit(mc, "design: sync, 1 ack, 2 txs, switch + restart", MaxRestart=1, extra=["-coverage", "1"])
+            jobs["design sync acks=2"] = ex.submit(mc, "design: sync, 2 acks, 2 txs, primary switch", Acks=2)
+            jobs["design sync acks=1 restart"] = ex.submit(mc, "design: sync, 1 ack, 2 txs, switch + restart", MaxRestart=1, workers=4)
+            jobs["design async restart"] = ex.submit(mc, "design: async, 2 txs, switch + restart + re-route", SyncRepl=F, MaxRestart=1)
+            jobs["design sync 3 txs"] = ex.submit(mc, "design: sync, 1 ack, 3 txs, primary switch by reconfiguration", MaxTx=3, WithReroute=F, Rejoin=F, workers=6, timeout=2400)
         # weakened decisions must be caught by the guards (teeth), and give schedules that are replayed on the real code
         jobs["teeth report"] = ex.submit(mc, "teeth: replica advertises its in-memory precommit", ReportInMem=T, RecordSched=T, MaxRestart=0)
         jobs["teeth check"] = ex.submit(mc, "teeth: primary skips the precommit alh check", SkipPrecommitCheck=T, RecordSched=T, MaxRestart=0)
